@@ -19,6 +19,12 @@ class T(object):
     def __repr__(self):
         return show(self)
 
+    def __deepcopy__(self, memo):
+        return self
+
+    def __copy__(self):
+        return self
+
 
 def _mk(op, args, sort):
     key = (op, args, sort)
